@@ -17,7 +17,15 @@
                   element values wv, positions widx (by identity); sv = std index draws
      raw          provided engine vs std engine, same seed: raw values, min(), max()
      engine       variate over a provided engine vs std distribution over the std engine
-     real         uniform_real / normal: bit patterns of the draws                            *)
+     real         uniform_real / normal: bit patterns of the draws
+     session      a sequence of operations (ops) on one distribution::basic object and on the
+                  equivalent std distribution, each with its own engine: per step the observation
+                  of the wrapper (w) and of std (s) as a sequence of 0 or 1 values (empty = the
+                  script ran out), and the number of raw values the engine has produced so far
+                  (wn / sn).  op = draw | reset | param_get | param_set | draw_param | minmax |
+                  eq | out.  A reset step also carries the values (fresh) and raw counts (freshn,
+                  relative) of a FRESH std distribution with the parameters in effect, started on a
+                  copy of the std engine at that point.  uniform_int draws carry lo / hi.        *)
 EXTENDS Random, RecordLoop
 
 Pre == "HARNESS-PRECONDITION"
@@ -79,6 +87,29 @@ EngineReasons(r) ==
 RealReasons(r) ==
   If(r.wv # r.sv, "not-transparent-values") \cup If(r.wnext # r.snext, "not-transparent-consumption")
 
+RECURSIVE DrawRun(_, _)
+\* number of consecutive plain draws that follow step i
+DrawRun(ops, i) == IF i + 1 <= Len(ops) /\ ops[i + 1].op = "draw" THEN 1 + DrawRun(ops, i + 1) ELSE 0
+Min2(a, b) == IF a < b THEN a ELSE b
+
+\* steps i+1.. after the reset at step i agree with the fresh distribution (sel = "w" / "s")
+FreshOk(ops, i, sel) ==
+  \A k \in 1..Min2(DrawRun(ops, i), Len(ops[i].fresh)) :
+    IF sel = "w" THEN ops[i + k].w = <<ops[i].fresh[k]>> /\ ops[i + k].wn - ops[i].wn = ops[i].freshn[k]
+    ELSE ops[i + k].s = <<ops[i].fresh[k]>> /\ ops[i + k].sn - ops[i].sn = ops[i].freshn[k]
+
+SessionReasons(r) ==
+  LET ops == r.ops
+      I == 1..Len(ops)
+      resets == {i \in I : ops[i].op = "reset"}
+  IN IF \/ \E i \in resets : ~FreshOk(ops, i, "s")          \* the std distribution itself must obey the reset law
+        \/ \E i \in I : i > 1 /\ ops[i].sn < ops[i - 1].sn
+        \/ \E i \in I : "lo" \in DOMAIN ops[i] /\ ops[i].s # <<>> /\ ~(ops[i].lo <= ops[i].s[1] /\ ops[i].s[1] <= ops[i].hi)
+     THEN {Pre}
+     ELSE {"not-transparent-" \o ops[i].op : i \in {j \in I : ops[j].w # ops[j].s \/ ops[j].wn # ops[j].sn}}
+          \cup If(\E i \in resets : ~FreshOk(ops, i, "w"), "reset-not-fresh")
+          \cup If(\E i \in I : "lo" \in DOMAIN ops[i] /\ ops[i].w # <<>> /\ ~(ops[i].lo <= ops[i].w[1] /\ ops[i].w[1] <= ops[i].hi), "out-of-bounds")
+
 RandomReasons(r) ==
   CASE r.f = "draw" -> DrawReasons(r)
     [] r.f = "agg" -> AggReasons(r)
@@ -87,5 +118,6 @@ RandomReasons(r) ==
     [] r.f = "raw" -> RawReasons(r)
     [] r.f = "engine" -> EngineReasons(r)
     [] r.f = "real" -> RealReasons(r)
+    [] r.f = "session" -> SessionReasons(r)
     [] OTHER -> {"unknown-record-kind"}
 =============================================================================
